@@ -337,6 +337,15 @@ class CaretC(RtContract):
             yield 'spaces == index', r.pieces[1][1] == cx.entry_env['index']
 
 
+def _bounded_caret(self, cx):
+    f = native_namespace()['_caret_at']
+    bad = [{'index': i, 'got': repr(f(i))[:60]} for i in list(range(0, 130)) + [200, 400, 1000] if f(i) != '\n' + ' ' * i + '^']
+    return bad[:5], 133, 'index 0..129, 200, 400, 1000: newline, index blanks, caret'
+
+
+CaretC.bounded = _bounded_caret
+
+
 class ExcerptC(RtContract):
     """_extract_excerpt(text, pos, col): requires 0 <= pos < len(text), col = column of pos.
     str: result = <one line> \\n <k spaces> ^ ; every text slice shown lies inside pos's line (window) and the character
